@@ -306,7 +306,7 @@ pub fn run(r: &Run) {
     r.set_rule(RULE);
     r.assume("the tail of PeerSession::run (families to drop / to mark stale, which negotiated GR/LLGR parameters survive the disconnect reason) and the helper side of process_effects are repeated statement by statement in the event hook module; apply_disconnect, GrState, the timer tasks and the TableManager calls are the daemon's own; time is tokio's paused clock");
     r.assume("a received non-Cease NOTIFICATION is not generated: RFC 8538 lets it enter helper mode with the N-bit while the statement says non-Cease errors never do");
-    r.prop("gr-histories", r.tier.pick(30_000, 1_500_000), || arb_case(r.tier.pick(16, 32)), check);
+    r.prop("gr-histories", r.tier.pick(150_000, 3_000_000), || arb_case(r.tier.pick(16, 32)), check);
 }
 
 pub fn replay(_sub: &str, case: &Value) -> Result<CheckResult, String> {
